@@ -721,10 +721,6 @@ func (ts *Service) handleCreateTask(w http.ResponseWriter, r *http.Request) {
 			task.Type = client.BatchTask
 		}
 		task.TICKscript = template.TICKscript
-		if err := ts.templates.AssociateTask(task.TemplateID, newTask.ID); err != nil {
-			httpd.HttpError(w, fmt.Sprintf("failed to associate task with template: %s", err), true, http.StatusBadRequest)
-			return
-		}
 	} else {
 		// Set task type
 		switch task.Type {
@@ -821,6 +817,16 @@ func (ts *Service) handleCreateTask(w http.ResponseWriter, r *http.Request) {
 		newTask.DBRPs = dbrps
 	}
 
+	// Associate the task with its template only now that the definition has been accepted.
+	// The association is written before the task: a crash in between leaves a stale association,
+	// which template updates ignore, never a templated task its template does not know about.
+	if newTask.TemplateID != "" {
+		if err := ts.templates.AssociateTask(newTask.TemplateID, newTask.ID); err != nil {
+			httpd.HttpError(w, fmt.Sprintf("failed to associate task with template: %s", err), true, http.StatusBadRequest)
+			return
+		}
+	}
+
 	// Save task
 	err = ts.tasks.Create(newTask)
 	if err != nil {
@@ -887,18 +893,6 @@ func (ts *Service) handleUpdateTask(w http.ResponseWriter, r *http.Request) {
 		if err != nil {
 			httpd.HttpError(w, fmt.Sprintf("unknown template %s: err: %s", task.TemplateID, err), true, http.StatusBadRequest)
 			return
-		}
-		if original.ID != updated.ID || original.TemplateID != updated.TemplateID {
-			if original.TemplateID != "" {
-				if err := ts.templates.DisassociateTask(original.TemplateID, original.ID); err != nil {
-					httpd.HttpError(w, fmt.Sprintf("failed to disassociate task with template: %s", err), true, http.StatusBadRequest)
-					return
-				}
-			}
-			if err := ts.templates.AssociateTask(templateID, updated.ID); err != nil {
-				httpd.HttpError(w, fmt.Sprintf("failed to associate task with template: %s", err), true, http.StatusBadRequest)
-				return
-			}
 		}
 		updated.Type = template.Type
 		updated.TICKscript = template.TICKscript
@@ -1007,6 +1001,31 @@ func (ts *Service) handleUpdateTask(w http.ResponseWriter, r *http.Request) {
 		updated.LastEnabled = now
 	}
 
+	// The association with a template follows the accepted definition: it is rewritten when the ID or
+	// the template of the task changes, the new one before and the old one after the task itself, so
+	// that a crash in between leaves a stale association, never a missing one.
+	reassociate := original.ID != updated.ID || original.TemplateID != updated.TemplateID
+	if original.ID != updated.ID {
+		if _, err := ts.tasks.Get(updated.ID); err == nil {
+			httpd.HttpError(w, fmt.Sprintf("failed to create new task during ID change: %s", ErrTaskExists), true, http.StatusInternalServerError)
+			return
+		}
+	}
+	if reassociate && updated.TemplateID != "" {
+		if err := ts.templates.AssociateTask(updated.TemplateID, updated.ID); err != nil {
+			httpd.HttpError(w, fmt.Sprintf("failed to associate task with template: %s", err), true, http.StatusBadRequest)
+			return
+		}
+	}
+	disassociate := func() {
+		if reassociate && original.TemplateID != "" {
+			if err := ts.templates.DisassociateTask(original.TemplateID, original.ID); err != nil {
+				ts.diag.Error("failed to disassociate task from template", err,
+					keyvalue.KV("template", original.TemplateID), keyvalue.KV("task", original.ID))
+			}
+		}
+	}
+
 	if original.ID != updated.ID {
 		// Task ID changed delete and re-create.
 		if err := ts.tasks.Create(updated); err != nil {
@@ -1021,6 +1040,7 @@ func (ts *Service) handleUpdateTask(w http.ResponseWriter, r *http.Request) {
 				keyvalue.KV("newID", updated.ID),
 			)
 		}
+		disassociate()
 		if original.Status == Enabled && updated.Status == Enabled {
 			// Stop task and start it under new name
 			ts.stopTask(original.ID)
@@ -1034,6 +1054,7 @@ func (ts *Service) handleUpdateTask(w http.ResponseWriter, r *http.Request) {
 			httpd.HttpError(w, fmt.Sprintf("failed to replace task definition: %s", err.Error()), true, http.StatusInternalServerError)
 			return
 		}
+		disassociate()
 	}
 
 	if statusChanged {
@@ -1423,18 +1444,23 @@ func (ts *Service) deleteTask(id string) error {
 		}
 		return err
 	}
+	vars.NumTasksVar.Add(-1)
+	if task.Status == Enabled {
+		vars.NumEnabledTasksVar.Add(-1)
+		ts.TaskMasterLookup.Main().DeleteTask(id)
+	}
+	if err := ts.tasks.Delete(id); err != nil {
+		return err
+	}
+	// Remove the association after the task: a crash in between leaves a stale association,
+	// never a templated task its template does not know about.
 	if task.TemplateID != "" {
 		if err := ts.templates.DisassociateTask(task.TemplateID, task.ID); err != nil {
 			ts.diag.Error("failed to disassociate task from template", err,
 				keyvalue.KV("template", task.TemplateID), keyvalue.KV("task", task.ID))
 		}
 	}
-	vars.NumTasksVar.Add(-1)
-	if task.Status == Enabled {
-		vars.NumEnabledTasksVar.Add(-1)
-		ts.TaskMasterLookup.Main().DeleteTask(id)
-	}
-	return ts.tasks.Delete(id)
+	return nil
 }
 
 func (ts *Service) convertTemplate(t Template, scriptFormat string) (client.Template, error) {
@@ -1853,6 +1879,10 @@ func (ts *Service) updateAllAssociatedTasks(old, new Template, taskIds []string)
 				}
 				continue
 			}
+			if task.TemplateID != new.ID {
+				// Not updated by the loop below: nothing to roll back.
+				continue
+			}
 			task.TemplateID = old.ID
 			task.TICKscript = old.TICKscript
 			task.Type = old.Type
@@ -1887,6 +1917,12 @@ func (ts *Service) updateAllAssociatedTasks(old, new Template, taskIds []string)
 		}
 		if err != nil {
 			return fmt.Errorf("error retrieving associated task %s: %s", taskId, err)
+		}
+		if task.TemplateID != old.ID {
+			// Stale association, for instance left behind by a crash between two transactions:
+			// the task is not defined by this template and must not be overwritten.
+			ts.templates.DisassociateTask(old.ID, taskId)
+			continue
 		}
 		if old.ID != new.ID {
 			// Update association
